@@ -43,6 +43,12 @@ def events(ctx):
     from ..ops_ecss import mk_tc, mk_tm
     from ..ops_cfdp import mk_pdu
     rng = ctx.rng
+    # packets whose running CRC is exactly zero after the primary / secondary header
+    from .c02 import crc_zero_prefix_tcs
+    for p in crc_zero_prefix_tcs(rng, 5):
+        base = {"kind": "tc", "p": p, "pk": "none", "cfg": {"none": 0}}
+        yield record("fault.decode", dict(base, mut=[], off=0, w=0, pat=0))
+        yield record("fault.decode", dict(base, mut=[{"f": "data", "x": p["data"]}], off=0, w=0, pat=0))
     # clean packets (and one single-bit fault each) of every size around the octet boundaries of the length field: the
     # standalone check must agree with the decoder for all of them
     for n in list(range(236, 262)) + list(range(492, 520)) + list(range(1004, 1030)) + ctx.q([], list(range(2040, 2060)) + [65000]):
